@@ -330,6 +330,14 @@ def gen_spec(R, *, n_lf=None, hc=False, small=False, kinds=None, vrl=None, rows=
                 o['dataset_name'] = R.choice([None, None, f'ds_{li}_{len(objs)}', f'/grp/ds{li}_{len(objs)}'])
                 frame_channels.setdefault(f, []).append(len(objs))
                 skip = {'dimension', 'element_limit', 'axis', 'representation_code'}
+                if not hc and R.random() < 0.3:
+                    # a dimension equal to the data's, and / or an element limit at or above it: both valid, both kept
+                    w = width or 1
+                    if R.random() < 0.6:
+                        o['attrs']['element_limit'] = {'v': [w + R.choice([0, 0, 3, 120])], 'units': None,
+                                                       'route': R.choice(['plain', 'dict', 'later'])}
+                    if R.random() < 0.5:
+                        o['attrs']['dimension'] = {'v': [w], 'units': None, 'route': R.choice(['plain', 'dict', 'later'])}
             if kind == 'frame':
                 o['channels'] = [Ref(li, i) for i in frame_channels[arg]]
                 first = objs[frame_channels[arg][0]]
